@@ -1006,7 +1006,7 @@ def names_e2e(R, repo_dir, tier, seed):
             rc3, out3 = C.run(["go", "vet"] + pkgs, cwd=TM.root, extra_env=TM.env(), timeout=600)
             if rc3 != 0:
                 msgs = [l.strip() for l in out3.splitlines() if re.match(r"^(vet: )?\S+\.go:\d+", l.strip())]
-                R.violation("a generated identifier collides with a name declared in the user's package (case '%s'): %s" % (lbl, (msgs or [out3[-200:]])[0]),
+                R.violation("generation succeeded but the output does not compile: a generated identifier is invalid or collides with a declared name (case '%s'): %s" % (lbl, (msgs or [out3[-200:]])[0]),
                             {"kind": "input", "failing_input": {f: open(os.path.join(TM.root, f)).read() for f in files}, "invocation": "kessoku " + " ".join(files), "errors": msgs[:5]})
         items = TS.render_names(TM.root, G.SplitMix64(seed * 17 + 3), nfiles=8 if tier == "quick" else 80)
         for lbl, fn, picked in items:
